@@ -26,6 +26,9 @@ def variants(n):
     return {tlagen.rec(owners=owners(2), extra=0),
             tlagen.rec(owners=owners(1, k5=2, k15=2), extra=0),
             tlagen.rec(owners=owners(1, k16=min(3, n), k17=2), extra=2),
+            # a hand-over to outside addresses that LOOK like users 1 and 3 (ids 100+u: the user's bytes with the case of
+            # every letter byte changed): those users are strangers to these parameters
+            tlagen.rec(owners=owners(2, k1=101, k4=100 + min(3, n), k16=101, k17=102), extra=0),
             # a hand-over that DROPS entries (owner 0 = no entry): nobody may change those parameters any more
             tlagen.rec(owners=owners(2, k2=0, k5=0, k17=0), extra=0)}
 
